@@ -1,5 +1,6 @@
 import Momo.Proof.SortApi
 import Momo.Proof.TrEqMisc
+import Momo.Proof.TrEqMisc2Sort
 /-!
 # C17 — Hash sorting groups equal items and its searches agree with a linear scan
 
@@ -350,5 +351,99 @@ theorem C17_stepCount_translated (count : Nat) : Tr.hs_pvGetStepCount count = st
   TrEq.tr_stepCount count
 
 example : Tr.hs_pvGetStepCount 5000 = 2 := by decide
+
+/-! #### area Misc (tools/trspecs/Misc.py → `Momo/Translated/Misc.lean`; equivalences: `Proof/TrEqMisc2Sort.lean`) -/
+
+/-- **C17 (`pvMultShift`) for the code as translated from HashSorter.h.** The translated function *is* the model's
+`multShift` (all 64-bit wrap-arounds coincide, no hypothesis), hence `pvMultShift(h, n) < n` for every 64-bit `h` and
+every `n > 0`: the interpolated index is inside the sequence. -/
+theorem C17_multShift_translated (h n : Nat) (hh : h < 2 ^ 64) (hn : 0 < n) :
+    Tr.hs_pvMultShift h n = multShift h n ∧ Tr.hs_pvMultShift h n < n := by
+  rw [TrEq.tr_multShift]
+  exact ⟨rfl, multShift_lt h n hh hn⟩
+
+/-- `HashSorter::pvCompare` as translated (an `int`: -1 / 0 / 1) is the model's three-way comparison. -/
+theorem C17_pvCompare_translated (v1 v2 : Nat) : Tr.hs_pvCompare v1 v2 = pvCompare v1 v2 :=
+  TrEq.tr_pvCompare v1 v2
+
+/-- **`pvFindHash` starts where the translated code says**: step budget = translated `pvGetStepCount(count)`, first probe =
+translated `pvMultShift(itemHash, count)`. -/
+theorem C17_findHash_start_translated {σ : Type} (M : Mem σ α) (s : σ) (count itemHash : Nat) :
+    findHash M s count itemHash =
+      if count = 0 then some (0, false)
+      else findHashLoop M s count itemHash (Tr.hs_pvGetStepCount count + 1) (Tr.hs_pvGetStepCount count) 0 count
+        (Tr.hs_findHash_start itemHash count) :=
+  TrEq.findHash_translated M s count itemHash
+
+/-- **One iteration of the interpolation loop of `pvFindHash`, with the translated index arithmetic.** For hashes that are
+`size_t` and `leftIndex ≤ middleIndex < count ≤ 2^63` (what holds in the C++ at that point) the model loop `findHashLoop`
+— the function `C17_find_*` / `C17_bounds_*` are about — moves `middleIndex` exactly as the statements
+`middleIndex += pvMultShift(itemHash - middleHash, count)`, `diff = pvMultShift(middleHash - itemHash, count)`,
+`if (leftIndex + diff > middleIndex) break`, `middleIndex -= diff` translated from the header do (64-bit wrap explicit). -/
+theorem C17_findHashLoop_translated {σ : Type} (M : Mem σ α) (s : σ) (count itemHash f step left right mid mh : Nat)
+    (hc : M.code s mid = some mh) (hh : itemHash < 2 ^ 64) (hmh : mh < 2 ^ 64)
+    (hl : left ≤ mid) (hmid : mid < count) (hn : count ≤ 2 ^ 63) :
+    findHashLoop M s count itemHash (f + 1) step left right mid =
+      if mh < itemHash then
+        if step = 0 then
+          (csub right (mid + 1)).bind fun n =>
+            (exponentialSearch (hashCmp (M.fwd s (mid + 1)) itemHash) n).map fun r => (mid + 1 + r.1, r.2)
+        else if Tr.hs_findHash_up mid itemHash mh count ≥ right then
+          (csub right (mid + 1)).bind fun n => binarySearchAt (hashCmp (M.fwd s 0) itemHash) (mid + 1) n
+        else findHashLoop M s count itemHash f (step - 1) (mid + 1) right (Tr.hs_findHash_up mid itemHash mh count)
+      else if mh > itemHash then
+        if step = 0 then
+          (csub mid left).bind fun n =>
+            (exponentialSearch (revHashCmp (M.rev s mid) itemHash) n).bind fun r =>
+              (csub mid (r.1 + (if r.2 then 1 else 0))).map fun idx => (idx, r.2)
+        else if Tr.hs_findHash_downBreak left (Tr.hs_findHash_diff itemHash mh count) mid = true then
+          (csub mid left).bind fun n => binarySearchAt (hashCmp (M.fwd s 0) itemHash) left n
+        else findHashLoop M s count itemHash f (step - 1) left mid
+          (Tr.hs_findHash_down mid (Tr.hs_findHash_diff itemHash mh count))
+      else some (mid, true) :=
+  TrEq.findHashLoop_translated M s count itemHash f step left right mid mh hc hh hmh hl hmid hn
+
+/-- one iteration of `pvExponentialSearch` / `pvBinarySearch` with the translated probe indexes `i = i * 2 + 2` and
+`(leftIndex + rightIndex) / 2` (sequences of at most 2^62 resp. 2^63 items: nothing wraps). -/
+theorem C17_search_steps_translated (cmp : Cmp) (count f i left l r : Nat) (hi : i < count) (hn : count ≤ 2 ^ 62)
+    (hlr : l < r) (hr : r ≤ 2 ^ 63) :
+    expLoop cmp count (f + 1) i left =
+      ((cmp i).bind fun c =>
+        if c > 0 then (csub i left).bind fun n => binarySearchAt cmp left n
+        else if c = 0 then some (i, true)
+        else expLoop cmp count f (Tr.hs_expSearch_next i) (i + 1)) ∧
+    binLoop cmp (f + 1) l r =
+      ((cmp (Tr.hs_binSearch_middle l r)).bind fun c =>
+        if c < 0 then binLoop cmp f (Tr.hs_binSearch_middle l r + 1) r
+        else if c > 0 then binLoop cmp f l (Tr.hs_binSearch_middle l r)
+        else some (Tr.hs_binSearch_middle l r, true)) :=
+  ⟨TrEq.expLoop_translated cmp count f i left hi hn, TrEq.binLoop_translated cmp f l r hlr hr⟩
+
+/-- **`RadixSorter::pvGetRadix` as translated** is the model's digit extraction, and the digit indexes the `radixCount`
+(translated `size_t{1} << radixSize`) counters — for every radix size the header admits (`radixSize ≤ 16`; here `< 64`). -/
+theorem C17_getRadix_translated (R code shift : Nat) (hR : R < 64) :
+    Tr.rs_pvGetRadix R code shift = getRadix R code shift ∧ Tr.rs_pvGetRadix R code shift < Tr.rs_radixCount R := by
+  rw [TrEq.tr_getRadix R code shift hR, TrEq.tr_radixCount R hR]
+  refine ⟨rfl, ?_⟩
+  unfold getRadix
+  rw [Nat.and_two_pow_sub_one_eq_mod]
+  exact Nat.mod_lt _ (Nat.two_pow_pos R)
+
+/-- **The shift schedule of `RadixSorter` as translated**: the clamp `(8 * sizeof(Code) > radixSize) ? … : 0` of `Sort` (the
+F6 fix), `nextShift`, and `selectionSortMaxCount` are the expressions of the model `radixSorterSortWith` / `nextShift` /
+`selectionSortMaxCount` that `C17_radix_sorts` and `C17_sort_*` are about. -/
+theorem C17_radix_shifts_translated {σ : Type} (M : Mem σ α) (R sz : Nat) (hR : R ≤ Extracted.rsMaxRadixSize) (hsz : sz < 2 ^ 61)
+    (G : GroupFn σ) (P : PartFn σ) (s : σ) (count : Nat) :
+    radixSorterSortWith M R (8 * sz) G P s count =
+      pvSortWith M R G (fun s b n => radixSortF M R G P (Tr.rs_Sort_shift R sz + 1) s b n (Tr.rs_Sort_shift R sz)) s 0 count ∧
+    (∀ shift, Tr.rs_nextShift R shift = nextShift R shift) ∧
+    Tr.rs_selectionSortMaxCount R = selectionSortMaxCount R := by
+  simp only [Extracted.rsMaxRadixSize] at hR
+  refine ⟨?_, TrEq.tr_nextShift R, TrEq.tr_selectionSortMaxCount R (by omega)⟩
+  rw [TrEq.tr_sortShift R sz hsz]
+  rfl
+
+example : Tr.hs_pvMultShift (2 ^ 63) 1000 = 500 := by decide
+example : Tr.rs_pvGetRadix 8 0xABCD 8 = 0xAB ∧ Tr.rs_Sort_shift 16 1 = 0 ∧ Tr.rs_Sort_shift 8 8 = 56 ∧ Tr.rs_nextShift 8 4 = 0 := by decide
 
 end Momo.Sort
